@@ -23,6 +23,22 @@ def _alarm(signum, frame):
     raise _Hang()
 
 
+_PRISTINE_TERMS = None
+
+
+def _reset_terms():
+    """descriptor._TERMS is a process-wide global that grows while files are read; every oracle call starts from the set as it
+    was when the library was imported, so that one (damaged) input cannot change how the next ones are written"""
+    global _PRISTINE_TERMS
+    from psd_tools.psd import descriptor as D
+
+    if _PRISTINE_TERMS is None:
+        _PRISTINE_TERMS = frozenset(D._TERMS)
+    elif len(D._TERMS) != len(_PRISTINE_TERMS):
+        D._TERMS.clear()
+        D._TERMS.update(_PRISTINE_TERMS)
+
+
 def resave_oracle(b):
     """returns (status, detail): status in accepted-ok | rejected | <failure kind>"""
     import logging
@@ -34,6 +50,7 @@ def resave_oracle(b):
 
     from psd_tools.psd import descriptor as _D_
 
+    _reset_terms()
     signal.signal(signal.SIGALRM, _alarm)
     signal.alarm(40)
     short_before = {k for k in _D_._TERMS if len(k) != 4}
@@ -81,9 +98,7 @@ def resave_oracle(b):
         return ("accepted-ok", str(len(s1)))
     finally:
         signal.alarm(0)
-        # the term set is a process-wide global of the library: forget the short terms this input added, so that one damaged
-        # input does not change how the following ones are written
-        _D_._TERMS.difference_update({k for k in _D_._TERMS if len(k) != 4} - short_before)
+        _reset_terms()
 
 
 def _has_empty_key(d):
@@ -165,6 +180,7 @@ def api_oracle(b):
     logging.disable(logging.CRITICAL)
     from psd_tools import PSDImage
 
+    _reset_terms()
     signal.signal(signal.SIGALRM, _alarm)
     signal.alarm(40)
     try:
@@ -328,10 +344,13 @@ def _api_level():
     from psd_tools.constants import Tag
     from psd_tools.psd import image_resources, tagged_blocks
 
-    keep = {k: v for k, v in tagged_blocks.TYPES.items() if k in (Tag.SECTION_DIVIDER_SETTING, Tag.NESTED_SECTION_DIVIDER_SETTING)}
+    global _DIVIDER_TYPES
+    _DIVIDER_TYPES = {k: v for k, v in tagged_blocks.TYPES.items() if k in (Tag.SECTION_DIVIDER_SETTING, Tag.NESTED_SECTION_DIVIDER_SETTING)}
     tagged_blocks.TYPES.clear()
-    tagged_blocks.TYPES.update(keep)
     image_resources.TYPES.clear()
+
+
+_DIVIDER_TYPES = {}
 
 
 def api_impl_outcome(b):
@@ -341,9 +360,21 @@ def api_impl_outcome(b):
 
     from .core import exc_code, h63_list
 
+    from psd_tools.psd import tagged_blocks
+
     signal.signal(signal.SIGALRM, _alarm)
     signal.alarm(40)
     try:
+        # the container's verdict first (no payload class at all): the model reads the whole container before it looks at the
+        # divider payloads, the code parses them while it reads the records - the order of two errors is not modelled
+        tagged_blocks.TYPES.clear()
+        try:
+            PSD.read(io.BytesIO(b))
+        except _Hang:
+            return [98]
+        except Exception as e:
+            return [exc_code(e)]
+        tagged_blocks.TYPES.update(_DIVIDER_TYPES)
         try:
             d = PSD.read(io.BytesIO(b))
         except _Hang:
@@ -611,14 +642,14 @@ def _tb_sites(b):
     return sorted(sites)
 
 
-def leaf_mutants(b, psb):
+def leaf_mutants(b, psb, full=True):
     """structure-level mutations INSIDE payloads: every byte of the file +1 / -1 and every single-bit flip (version, count, flag,
     parameter fields of the payload classes are all among them); on every tagged block: signature swapped 8BIM <-> 8B64, key replaced
     by a key inside / outside TaggedBlock._BIG_KEYS, by an unknown key; zeroed 4- and 8-byte fields (parameter values 0 / 0.0)"""
     n = len(b)
     for o in range(26, n):
         x = b[o]
-        vals = {(x + 1) & 255, (x - 1) & 255} | {x ^ (1 << k) for k in range(8)}
+        vals = {(x + 1) & 255, (x - 1) & 255} | {x ^ (1 << k) for k in (range(8) if full else (0, 7))}
         for v in sorted(vals):
             m = bytearray(b)
             m[o] = v
@@ -669,12 +700,13 @@ def run():
     from . import format_common as F
 
     ck = Check("C02")
+    _reset_terms()          # remember the library's term set before anything is read
     thorough = ck.tier == "thorough"
     ck.rule = ("seeds = API-built documents + small fixtures + hand-made minimal files + small generated documents (both versions); mutants = every "
                "truncation offset of small files, structural boundaries, bit flips in header/length/count fields, max-value/zero substitution in "
                "aligned 2/4/8-byte fields, random substitutions, splices (generator shared with C06); oracle: every mutant the reader accepts "
                "(non-trivial = accepted mutant that differs from its seed); correspondence: accepted AND rejected mutants - all of them for the hand-made files (thorough: for every seed up "
-               "to 3000 bytes), a sample of 600 per small seed and of 30 / 120 per larger fixture, model reader/writer (vm_compute) vs implementation with payload registries emptied")
+               "to 3000 bytes), a sample of 250 per small seed and of 30 / 120 per larger fixture, model reader/writer (vm_compute) vs implementation with payload registries emptied")
     # ---- Coq: theorems
     if ck.coq_build(["theories/Psd/ResaveProofs.v", "theories/Psd/ResaveWrite.v", "theories/Psd/ResaveApiProofs.v", "theories/Properties/C02.v"]):
         ck.collect_theorems("C02.v")
@@ -699,7 +731,7 @@ def run():
         seen = set()
         muts = []
         for desc, m in itertools.chain(c06.gen_mutants(ck, name, b), tb_mutants(b),
-                                       leaf_mutants(b, b[4:6] == b"\x00\x02") if name in richnames else ()):
+                                       leaf_mutants(b, b[4:6] == b"\x00\x02", thorough) if name in richnames else ()):
             if m in seen or m == b:
                 continue
             seen.add(m)
@@ -750,7 +782,7 @@ def run():
         elif n <= 200 or (thorough and n <= 3000):
             take = cids
         elif n <= 3000:
-            take = [cids[0]] + ck.rng.sample(cids[1:], min(len(cids) - 1, 600))
+            take = [cids[0]] + ck.rng.sample(cids[1:], min(len(cids) - 1, 250))
         elif n <= 40000:
             take = [cids[0]] + ck.rng.sample(cids[1:], min(len(cids) - 1, 120 if thorough else 30))
         else:
@@ -799,9 +831,9 @@ def run():
         if len(b) > 3000:
             continue
         if name in ("tiny:wa1", "tiny:wa2", "tiny:wa3", "tiny:w6"):
-            k = len(cids) if thorough else 500
+            k = len(cids) if thorough else 300
         else:
-            k = 400 if thorough else 60
+            k = 300 if thorough else 40
         asel.extend([cids[0]] + ck.rng.sample(cids[1:], min(len(cids) - 1, k)))
     a_inputs = [inputs[c] for c in asel]
     with multiprocessing.get_context("fork").Pool(14, initializer=_api_level) as pool:
